@@ -8,6 +8,9 @@
 //
 // <api> is "-" (evaluate the expression with v0.. bound in a scope) or a direct call of the rel Go API:
 //
+//	r  K OFF c…    a root built through the constructors: rel.NewOffsetString([]rune(string), OFF) /
+//	               rel.NewOffsetBytes / rel.NewOffsetArray(OFF, …) — elements appended one by one as the
+//	               literal's evaluator does ("_" = hole)
 //	w  I K AT N    vI.With(tuple)     K = S|B|A: (@:AT,@char:N) | (@:AT,@byte:N) | (@:AT,@item:N)
 //	wo I K AT N    vI.Without(tuple)  (as NewWithoutExpr: an untrue result is None)
 //	cat I J        rel.Concatenate(vI, vJ)
@@ -69,6 +72,38 @@ func (h *hist) operand(s string) (rel.Set, bool) {
 func (h *hist) runAPI(api string) (v rel.Value, ok bool) {
 	f := strings.Fields(api)
 	switch f[0] {
+	case "r":
+		if len(f) < 3 {
+			return nil, false
+		}
+		off, _ := strconv.Atoi(f[2])
+		switch f[1] {
+		case "S":
+			var rs []rune
+			for _, c := range f[3:] {
+				n, _ := strconv.Atoi(c)
+				rs = append(rs, rune(n))
+			}
+			return rel.NewOffsetString([]rune(string(rs)), off), true
+		case "B":
+			var bs []byte
+			for _, c := range f[3:] {
+				n, _ := strconv.Atoi(c)
+				bs = append(bs, byte(n))
+			}
+			return rel.NewOffsetBytes(bs, off), true
+		default:
+			var vs []rel.Value
+			for _, c := range f[3:] {
+				if c == "_" {
+					vs = append(vs, nil)
+					continue
+				}
+				n, _ := strconv.Atoi(c)
+				vs = append(vs, rel.NewNumber(float64(n)))
+			}
+			return rel.NewOffsetArray(off, vs...), true
+		}
 	case "w", "wo":
 		if len(f) != 5 {
 			return nil, false
